@@ -41,6 +41,7 @@ func c17Contents() [][]mockq.Rec {
 	return [][]mockq.Rec{
 		mk("\x00\xff\xfe\x80", "", "a", "\x1b[\x1b[;;;;m", strings.Repeat("é", 300), "<>{{}}%!s(MISSING)", "\"", "\\"),
 		mk(`{"a":{"b":[1,2`, deep, deepArr, `{"a":"b","a":{"a":"b"},"v":1e999,"":""}`, `{"_entry":5,"x y":"z"}`, `{"_entry":"{\"_entry\":1}","a":"\ud800"}`, `[1,2,3]`, `null`, `{"a":1}{"a":2}`, `{"tags":["a",null],"a":[null]}`, `{"a":{"b":[{"c":null},null,[null]]}}`),
+		mk(`d= a= b= sz= v=`, `d="" a="" v=""`, `{"d":"","a":"","v":""}`, `d=1s a=2 b=3 v=4`, `d a b v`),
 		mk(`a="x`, `==`, `a=b=c`, `"`, `a= b= =c`, "a=\x00 b=\xff", `k="\xzz"`, `a="unterminated \"`, strings.Repeat("k=v ", 500)),
 		mk(`v=1e999 d=99999999h sz=99999999999999999999EB`, `v=-0 d=-1ns sz=-1KB`, `v=9223372036854775808 d=9223372036854775807ns sz=18446744073709551616b`, `v=NaN d=NaN sz=NaN`, `v=Inf d=+Inf sz=0x10`, `v=1e-999 d=0.0000000001ns sz=1.5.5MB`, `{"v":1e999,"d":"9e99h","sz":"1e99gb","ip":"999.999.999.999"}`),
 		mk(`GET /a 200 10.0.0.1 ::ffff:1.2.3.4 1.2.3.4.5.6 ::::::`, `ip=::1 ip2=1::1::1 addr=256.1.1.1`, `a b c d e f`, `[x] "y"`, `<a> <b>`, `x 1`, `9.`, `1.2`, `:`, `f:`),
@@ -271,6 +272,13 @@ func c17Run(r *vkit.Run) {
 		`vector(1) unless vector(1)`, `vector(1) and (vector(2) unless vector(2))`, `sum(vector(1) unless vector(1))`, `topk(1, vector(1) unless vector(1))`, `sort(vector(1) unless vector(1))`,
 		`count_over_time({nosuch="x"}[10s])`, `sum(count_over_time({nosuch="x"}[10s])) / sum(count_over_time({nosuch="y"}[10s]))`, `quantile_over_time(0.5, {nosuch="x"} | unwrap v [10s]) by (a)`,
 		`count_over_time({}[10s]) > 100000`, `(count_over_time({}[10s]) > 100000) or vector(0)`, `{nosuch="x"}`, `{} |= "no such needle at all"`,
+		// a set operation whose right side has more series than its left; conversions of empty values; grouping lists
+		// longer than the label set they apply to
+		`sum(count_over_time({}[10s])) unless count_over_time({}[10s])`, `sum(count_over_time({}[10s])) and count_over_time({} | logfmt [10s])`, `vector(1) unless count_over_time({} | json [10s])`,
+		`count_over_time({}[10s]) unless sum(count_over_time({}[10s]))`, `sum by (a) (count_over_time({} | logfmt [10s])) or sum by (a, b, c, d) (count_over_time({} | logfmt [10s]))`,
+		`sum_over_time({} | logfmt | unwrap duration(d) [10s])`, `sum_over_time({} | logfmt | unwrap duration_seconds(a) [10s])`, `sum_over_time({} | logfmt | unwrap bytes(b) [10s])`, `sum_over_time({} | json | unwrap duration(d) [10s])`,
+		`avg_over_time({} | logfmt | unwrap v [10s]) without (a, b, c, d, e, f, g, h, i, j, k, l, m, n)`, `max_over_time({} | logfmt | unwrap v [10s]) by (a, b, c, d, e, f, g, h, i, j, k, l, m, n)`,
+		`sum without (a, b, c, d, e, f, g, h, i, j, k, l, m, n, msg) (count_over_time({} | logfmt [10s]))`, `count_over_time({}[10s]) > on (a, b, c, d, e, f, g, h) count_over_time({}[10s])`,
 		// integer, float and duration parameters at and beyond the limits of their types
 		`topk(2147483648, count_over_time({}[10s]))`, `topk(4294967296, count_over_time({}[10s])) by (a)`, `topk(9223372036854775807, count_over_time({}[10s]))`, `bottomk(9223372036854775807, count_over_time({} | json [10s])) by (a)`,
 		`topk(9223372036854775808, count_over_time({}[10s]))`, `bottomk(1e18, count_over_time({}[10s]))`, `topk(1.5, count_over_time({}[10s]))`, `topk(9223372036854775807, vector(1))`,
